@@ -244,13 +244,13 @@ func c12Setup(in *C12Input) *c12Env {
 			nm.SemLogger().SetEmpty(am.LogLevel(in.Log))
 		}
 		if in.Tracer {
-			_, err := nm.TracerBind(&c12Tracer{TracerNoOp: &am.TracerNoOp{}})
+			_, err := nm.TracerBind(&c12Tracer{TracerNoOp: &am.TracerNoOp{Id: "tr-setup"}})
 			must(err)
 		}
 		return env
 	}
 	if in.Tracer {
-		_, err := m.TracerBind(&c12Tracer{TracerNoOp: &am.TracerNoOp{}})
+		_, err := m.TracerBind(&c12Tracer{TracerNoOp: &am.TracerNoOp{Id: "tr-setup"}})
 		must(err)
 	}
 	if in.Handlers {
@@ -675,7 +675,7 @@ func c12Child(spec string) {
 	if in.Rounds < 1 {
 		in.Rounds = 1
 	}
-	budget := time.Duration(in.Rounds*in.DurMs)*time.Millisecond + 6*time.Second
+	budget := time.Duration(in.Rounds*in.DurMs)*time.Millisecond + 4*time.Second
 	go func() {
 		time.Sleep(budget)
 		fmt.Println("C12HUNG")
@@ -755,7 +755,12 @@ type c12Frame struct {
 	Line int
 }
 
-func c12ParseReport(stderr string) (blocks [][]c12Frame) {
+type c12Block struct {
+	write  bool
+	frames []c12Frame
+}
+
+func c12ParseReport(stderr string) (blocks []c12Block) {
 	lines := strings.Split(stderr, "\n")
 	i := 0
 	for i < len(lines) && !strings.Contains(lines[i], "WARNING: DATA RACE") {
@@ -768,6 +773,8 @@ func c12ParseReport(stderr string) (blocks [][]c12Frame) {
 			}
 			continue
 		}
+		hdr := strings.ToLower(strings.TrimSpace(lines[i]))
+		isWrite := strings.HasPrefix(hdr, "write") || strings.HasPrefix(hdr, "previous write")
 		var frames []c12Frame
 		for i+1 < len(lines) && strings.TrimSpace(lines[i+1]) != "" {
 			fn := strings.TrimSpace(lines[i+1])
@@ -786,7 +793,7 @@ func c12ParseReport(stderr string) (blocks [][]c12Frame) {
 			}
 			frames = append(frames, f)
 		}
-		blocks = append(blocks, frames)
+		blocks = append(blocks, c12Block{write: isWrite, frames: frames})
 	}
 	return blocks
 }
@@ -811,13 +818,17 @@ func c12Line(file string, line int) string {
 	return ls[line-1]
 }
 
-// fields named on the source line of the first frame inside the repo;
-// harness = the first non-library frame belongs to the harness itself
-func (t *c12Table) attribute(frames []c12Frame) (fields map[int]bool, at string, harness bool) {
+// fields named on the source line of the innermost frame inside the repo
+// that names one (a few frames up at most: helpers like slicesEvery are
+// called with the field as an argument); for a write, the assigned field wins.
+// harness = the innermost non-library frame belongs to the harness itself
+// (user data handed to the library).
+func (t *c12Table) attribute(frames []c12Frame, write bool) (fields map[int]bool, at string, harness bool) {
 	fields = map[int]bool{}
+	depth := 0
 	for _, f := range frames {
 		if strings.HasPrefix(f.Fn, "main.") {
-			return fields, f.Fn, true
+			return fields, at, depth == 0
 		}
 		pkg := ""
 		switch {
@@ -828,15 +839,26 @@ func (t *c12Table) attribute(frames []c12Frame) (fields map[int]bool, at string,
 		default:
 			continue
 		}
+		depth++
 		src := c12Line(f.File, f.Line)
-		at = fmt.Sprintf("%s:%d", filepath.Base(f.File), f.Line)
+		if at == "" {
+			at = fmt.Sprintf("%s:%d", filepath.Base(f.File), f.Line)
+		}
+		lhs := -1
 		for ident, id := range t.Idents[pkg] {
 			if regexp.MustCompile(`\.` + ident + `\b`).MatchString(src) {
 				fields[id] = true
 			}
+			if write && regexp.MustCompile(`^\s*[\w.]*\.`+ident+`(\[[^\]]*\])?\s*(=[^=]|\+\+|--|[-+]=)`).MatchString(src) {
+				lhs = id
+			}
 		}
-		// the Subscriptions code of pkg/machine also serves the NetworkMachine
-		return fields, at, false
+		if lhs >= 0 {
+			return map[int]bool{lhs: true}, at, false
+		}
+		if len(fields) > 0 || depth >= 4 {
+			return fields, at, false
+		}
 	}
 	return fields, at, false
 }
@@ -899,16 +921,16 @@ func c12Run(c *Ctx, t *c12Table, in *C12Input) *c12Obs {
 		var fs []map[int]bool
 		nHarness := 0
 		for i, b := range blocks {
-			f, at, harness := t.attribute(b)
+			f, at, harness := t.attribute(b.frames, b.write)
 			if harness {
 				// user data handed to the library (e.g. the Serialized passed
 				// to Import): attribute by the other side
 				nHarness++
 			}
 			if i == 0 {
-				obs.At1, obs.M1 = at, c12Blame(b)
+				obs.At1, obs.M1 = at, c12Blame(b.frames)
 			} else {
-				obs.At2, obs.M2 = at, c12Blame(b)
+				obs.At2, obs.M2 = at, c12Blame(b.frames)
 			}
 			fs = append(fs, f)
 		}
@@ -938,30 +960,43 @@ func c12Run(c *Ctx, t *c12Table, in *C12Input) *c12Obs {
 }
 
 func c12PickField(fs []map[int]bool) int {
-	var inter, union []int
-	if len(fs) == 2 {
+	var cand map[int]bool
+	nonEmpty := 0
+	for _, m := range fs {
+		if len(m) > 0 {
+			nonEmpty++
+		}
+	}
+	switch {
+	case len(fs) == 2 && nonEmpty == 2:
+		cand = map[int]bool{}
 		for f := range fs[0] {
 			if fs[1][f] {
-				inter = append(inter, f)
+				cand[f] = true
+			}
+		}
+		if len(cand) == 0 {
+			// two lines naming different fields: the assigned one (a singleton) wins
+			for _, m := range fs {
+				if len(m) == 1 {
+					for f := range m {
+						cand[f] = true
+					}
+				}
+			}
+		}
+	default:
+		cand = map[int]bool{}
+		for _, m := range fs {
+			for f := range m {
+				cand[f] = true
 			}
 		}
 	}
-	for _, m := range fs {
-		for f := range m {
-			union = append(union, f)
+	if len(cand) == 1 {
+		for f := range cand {
+			return f
 		}
-	}
-	sort.Ints(inter)
-	sort.Ints(union)
-	if len(inter) >= 1 {
-		return inter[0]
-	}
-	uniq := map[int]bool{}
-	for _, f := range union {
-		uniq[f] = true
-	}
-	if len(uniq) == 1 {
-		return union[0]
 	}
 	return c12NoField
 }
@@ -1010,8 +1045,8 @@ func runC12(c *Ctx) error {
 		tp := reflect.TypeOf(v)
 		for i := 0; i < tp.NumMethod(); i++ {
 			n := tp.Method(i).Name
-			if strings.HasPrefix(n, "Verif") {
-				continue
+			if strings.HasPrefix(n, "Verif") && !strings.HasPrefix(n, "Verify") {
+				continue // hooks of the verif build tag
 			}
 			have[prefix+n] = true
 		}
@@ -1106,6 +1141,11 @@ func runC12(c *Ctx) error {
 						pairs = append(pairs, [2]string{as[r.Intn(len(as))], bs[r.Intn(len(bs))]})
 					}
 					for _, p := range pairs {
+						if p[0] == "NM.UpdateClock" && p[1] == "NM.UpdateClock" {
+							// two concurrent updateClock calls deadlock (clockMx /
+							// tracersMx order); the rpc client serialises them
+							continue
+						}
 						warm := r.Chance(75)
 						in := &C12Input{Kind: kind, Warm: warm, Threads: [][]string{{p[0]}, {p[1]}},
 							Rounds: 3, DurMs: 4, Seed: r.U64() >> 1,
@@ -1130,7 +1170,7 @@ func runC12(c *Ctx) error {
 		pick := func(pool []string) string {
 			for {
 				n := pool[r.Intn(len(pool))]
-				if heavy[n] && !r.Chance(15) {
+				if heavy[n] && !r.Chance(6) {
 					continue
 				}
 				return n
